@@ -19,6 +19,7 @@
 package runtime
 
 import (
+	stdErrors "errors"
 	"fmt"
 
 	"github.com/onflow/cadence/activations"
@@ -28,6 +29,7 @@ import (
 	"github.com/onflow/cadence/bbq/compiler"
 	"github.com/onflow/cadence/bbq/vm"
 	"github.com/onflow/cadence/common"
+	"github.com/onflow/cadence/errors"
 	"github.com/onflow/cadence/interpreter"
 	"github.com/onflow/cadence/sema"
 	"github.com/onflow/cadence/stdlib"
@@ -479,6 +481,15 @@ func (e *vmEnvironment) loadDesugaredElaboration(location common.Location) (*com
 	return program.compiledProgram.desugaredElaboration, nil
 }
 
+// panicIfExternalError propagates failures of the host (e.g. of loading a program),
+// which must not be reported as a type that merely failed to load.
+func panicIfExternalError(err error) {
+	var externalError errors.ExternalError
+	if stdErrors.As(err, &externalError) {
+		panic(err)
+	}
+}
+
 func (e *vmEnvironment) loadCompositeType(location common.Location, typeID interpreter.TypeID) *sema.CompositeType {
 	ty := e.allDeclaredTypes[typeID]
 	if ty != nil {
@@ -491,6 +502,7 @@ func (e *vmEnvironment) loadCompositeType(location common.Location, typeID inter
 
 	elaboration, err := e.loadDesugaredElaboration(location)
 	if err != nil {
+		panicIfExternalError(err)
 		return nil
 	}
 
@@ -510,6 +522,7 @@ func (e *vmEnvironment) loadInterfaceType(location common.Location, typeID inter
 
 	elaboration, err := e.loadDesugaredElaboration(location)
 	if err != nil {
+		panicIfExternalError(err)
 		return nil
 	}
 
@@ -529,6 +542,7 @@ func (e *vmEnvironment) loadEntitlementType(location common.Location, typeID int
 
 	elaboration, err := e.loadDesugaredElaboration(location)
 	if err != nil {
+		panicIfExternalError(err)
 		return nil
 	}
 
@@ -548,6 +562,7 @@ func (e *vmEnvironment) loadEntitlementMapType(location common.Location, typeID 
 
 	elaboration, err := e.loadDesugaredElaboration(location)
 	if err != nil {
+		panicIfExternalError(err)
 		return nil
 	}
 
